@@ -296,11 +296,20 @@ impl AnyTracker {
         }
     }
 
-    fn predict_simple(&mut self, scene: u64, dets: &[Det]) -> Vec<Rec> {
+    /// `alt`: for scene 0 use the scene-less convenience entry point (predict, skip_epochs,
+    /// current_epoch, idle_tracks), which must be the same thing as the *_with_scene(0) call
+    fn predict_simple(&mut self, scene: u64, dets: &[Det], alt: bool) -> Vec<Rec> {
+        let conv = alt && scene == 0;
+        if conv {
+            rt::probe::hit("sceneless_convenience_api_calls");
+        }
         match self {
             AnyTracker::Sort(t) => {
                 let v: Vec<(Universal2DBox, Option<i64>)> =
                     dets.iter().map(|d| (to_ubox(&d.b), d.custom)).collect();
+                if conv {
+                    return t.predict(&v).iter().map(rec).collect();
+                }
                 t.predict_with_scene(scene, &v).iter().map(rec).collect()
             }
             AnyTracker::Visual(t) => {
@@ -308,6 +317,9 @@ impl AnyTracker {
                     .iter()
                     .map(|d| VisualSortObservation::new(d.feature.as_deref(), d.quality, to_ubox(&d.b), d.custom))
                     .collect();
+                if conv {
+                    return t.predict(&v).iter().map(rec).collect();
+                }
                 t.predict_with_scene(scene, &v).iter().map(rec).collect()
             }
             _ => unreachable!(),
@@ -346,7 +358,16 @@ impl AnyTracker {
         }
     }
 
-    fn skip(&mut self, scene: u64, n: usize) {
+    fn skip(&mut self, scene: u64, n: usize, alt: bool) {
+        if alt && scene == 0 {
+            rt::probe::hit("sceneless_convenience_api_calls");
+            return match self {
+                AnyTracker::Sort(t) => t.skip_epochs(n),
+                AnyTracker::BatchSort(t) => t.skip_epochs(n),
+                AnyTracker::Visual(t) => t.skip_epochs(n),
+                AnyTracker::BatchVisual(t) => t.skip_epochs(n),
+            };
+        }
         match self {
             AnyTracker::Sort(t) => t.skip_epochs_for_scene(scene, n),
             AnyTracker::BatchSort(t) => t.skip_epochs_for_scene(scene, n),
@@ -364,7 +385,16 @@ impl AnyTracker {
         }
     }
 
-    fn idle(&mut self, scene: u64) -> Vec<Rec> {
+    fn idle(&mut self, scene: u64, alt: bool) -> Vec<Rec> {
+        if alt && scene == 0 {
+            rt::probe::hit("sceneless_convenience_api_calls");
+            return match self {
+                AnyTracker::Sort(t) => t.idle_tracks().iter().map(rec).collect(),
+                AnyTracker::BatchSort(t) => t.idle_tracks().iter().map(rec).collect(),
+                AnyTracker::Visual(t) => t.idle_tracks().iter().map(rec).collect(),
+                AnyTracker::BatchVisual(t) => t.idle_tracks().iter().map(rec).collect(),
+            };
+        }
         match self {
             AnyTracker::Sort(t) => t.idle_tracks_with_scene(scene).iter().map(rec).collect(),
             AnyTracker::BatchSort(t) => t.idle_tracks_with_scene(scene).iter().map(rec).collect(),
@@ -391,7 +421,16 @@ impl AnyTracker {
         }
     }
 
-    fn epoch(&self, scene: u64) -> usize {
+    fn epoch(&self, scene: u64, alt: bool) -> usize {
+        if alt && scene == 0 {
+            rt::probe::hit("sceneless_convenience_api_calls");
+            return match self {
+                AnyTracker::Sort(t) => t.current_epoch(),
+                AnyTracker::BatchSort(t) => t.current_epoch(),
+                AnyTracker::Visual(t) => t.current_epoch(),
+                AnyTracker::BatchVisual(t) => t.current_epoch(),
+            };
+        }
         match self {
             AnyTracker::Sort(t) => t.current_epoch_with_scene(scene),
             AnyTracker::BatchSort(t) => t.current_epoch_with_scene(scene),
@@ -497,7 +536,7 @@ pub fn run_tracker(case: &TrackerCase, opts: &DriveOpts) -> History {
                         Res::Scenes(read_results(&h, n))
                     }
                 } else {
-                    Res::Scenes(vec![(*scene, t.predict_simple(*scene, dets))])
+                    Res::Scenes(vec![(*scene, t.predict_simple(*scene, dets, i % 2 == 1))])
                 }
             }
             TOp::Batch { scenes, consumer } => {
@@ -547,17 +586,17 @@ pub fn run_tracker(case: &TrackerCase, opts: &DriveOpts) -> History {
                 } else {
                     let mut v = vec![];
                     for (s, dets) in scenes {
-                        v.push((*s, t.predict_simple(*s, dets)));
+                        v.push((*s, t.predict_simple(*s, dets, i % 2 == 1)));
                     }
                     Res::Scenes(v)
                 }
             }
             TOp::Skip { scene, n } => {
-                t.skip(*scene, *n);
+                t.skip(*scene, *n, i % 2 == 1);
                 Res::Unit
             }
             TOp::Wasted => Res::Wasted(t.wasted()),
-            TOp::Idle { scene } => Res::Idle(t.idle(*scene)),
+            TOp::Idle { scene } => Res::Idle(t.idle(*scene, i % 2 == 1)),
             TOp::ClearWasted => {
                 t.clear_wasted();
                 Res::Unit
@@ -566,7 +605,7 @@ pub fn run_tracker(case: &TrackerCase, opts: &DriveOpts) -> History {
                 t.set_auto_waste(*p);
                 Res::Unit
             }
-            TOp::Epoch { scene } => Res::Epoch(t.epoch(*scene)),
+            TOp::Epoch { scene } => Res::Epoch(t.epoch(*scene, i % 2 == 1)),
             TOp::Stats => {
                 let (a, w) = t.stats();
                 Res::Stats { active: a, wasted: w }
